@@ -27,6 +27,55 @@ use uuid::Uuid;
 
 use crate::{ClusterActor, DEFAULT_BATCH_SIZE, confirmation::AtomicWatermark};
 
+/// Verification hooks (compiled only with `--cfg sierradb_verif`): pause points of the
+/// subscription task and of the confirmation broadcaster. A harness installs a scheduler whose
+/// future completes when the paused task may continue, so an exact interleaving can be replayed
+/// on the real tasks. Without a scheduler every pause point returns immediately.
+#[cfg(sierradb_verif)]
+pub mod verif {
+    use std::{
+        future::Future,
+        pin::Pin,
+        sync::{Arc, RwLock},
+    };
+
+    pub type PauseFuture = Pin<Box<dyn Future<Output = ()> + Send>>;
+    type Scheduler = Arc<dyn Fn(&'static str, String) -> PauseFuture + Send + Sync>;
+    type Observer = Arc<dyn Fn(&'static str, u64) + Send + Sync>;
+
+    static SCHEDULER: RwLock<Option<Scheduler>> = RwLock::new(None);
+    static OBSERVER: RwLock<Option<Observer>> = RwLock::new(None);
+
+    /// Installs (or removes) the callback awaited by `pause`.
+    pub fn set_scheduler(scheduler: Option<Scheduler>) {
+        *SCHEDULER.write().unwrap_or_else(|e| e.into_inner()) = scheduler;
+    }
+
+    /// Installs (or removes) the callback run by `note`.
+    pub fn set_observer(observer: Option<Observer>) {
+        *OBSERVER.write().unwrap_or_else(|e| e.into_inner()) = observer;
+    }
+
+    /// Called at the pause point named `point`; a no-op unless a scheduler is installed.
+    pub async fn pause(point: &'static str, detail: String) {
+        let scheduler = SCHEDULER
+            .read()
+            .unwrap_or_else(|e| e.into_inner())
+            .clone();
+        if let Some(scheduler) = scheduler {
+            scheduler(point, detail).await;
+        }
+    }
+
+    /// Reports a value computed at `point` (never blocks).
+    pub fn note(point: &'static str, value: u64) {
+        let observer = OBSERVER.read().unwrap_or_else(|e| e.into_inner()).clone();
+        if let Some(observer) = observer {
+            observer(point, value);
+        }
+    }
+}
+
 pub struct Subscribe {
     pub subscription_id: Uuid,
     pub matcher: SubscriptionMatcher,
@@ -400,9 +449,15 @@ impl Subscription {
     }
 
     async fn run(&mut self, mut matcher: SubscriptionMatcher) -> Result<(), SubscriptionError> {
+        #[cfg(sierradb_verif)]
+        verif::pause("sub:start", String::new()).await;
+
         self.read_history(&mut matcher).await?;
 
         loop {
+            #[cfg(sierradb_verif)]
+            verif::pause("live:recv", String::new()).await;
+
             match self.broadcast_rx.recv().await {
                 Ok(record) => {
                     if matcher.has_seen(&record) {
@@ -439,12 +494,21 @@ impl Subscription {
     }
 
     async fn send_record(&mut self, record: EventRecord) -> Result<(), SubscriptionError> {
+        #[cfg(sierradb_verif)]
+        verif::pause(
+            "send:wait",
+            format!("{}:{}", record.partition_id, record.partition_sequence),
+        )
+        .await;
+
         self.last_ack_rx
             .wait_for(|last_ack| {
                 let gap = match last_ack {
                     Some(last_ack) => self.cursor.saturating_sub(*last_ack),
                     None => self.cursor + 1,
                 };
+                #[cfg(sierradb_verif)]
+                verif::note("send:window", (gap <= self.window_size) as u64);
                 gap <= self.window_size
             })
             .await?;
@@ -522,7 +586,11 @@ impl Subscription {
             .database
             .read_partition(partition_id, *from_sequence, IterDirection::Forward)
             .await?;
+        #[cfg(sierradb_verif)]
+        verif::pause("hist:batch", format!("{partition_id}")).await;
         'iter: while let Some(commits) = iter.next_batch(DEFAULT_BATCH_SIZE).await? {
+            #[cfg(sierradb_verif)]
+            verif::note("hist:len", commits.len() as u64);
             for commit in commits {
                 let Some(first_partition_sequence) = commit.first_partition_sequence() else {
                     continue;
@@ -541,6 +609,8 @@ impl Subscription {
                     *from_sequence = sequence + 1;
                 }
             }
+            #[cfg(sierradb_verif)]
+            verif::pause("hist:batch", format!("{partition_id}")).await;
         }
 
         Ok(())
@@ -593,11 +663,16 @@ impl Subscription {
                     while let Some((partition_id, (iter, from_sequence))) =
                         partition_iters.iter_mut().choose(&mut rng)
                     {
+                        #[cfg(sierradb_verif)]
+                        verif::pause("hist:batch", format!("{partition_id}")).await;
+
                         let Some(commits) = iter.next_batch(DEFAULT_BATCH_SIZE).await? else {
                             let partition_id = *partition_id;
                             partition_iters.remove(&partition_id);
                             continue;
                         };
+                        #[cfg(sierradb_verif)]
+                        verif::note("hist:len", commits.len() as u64);
 
                         for commit in commits {
                             let Some(first_partition_sequence) = commit.first_partition_sequence()
@@ -674,6 +749,9 @@ impl Subscription {
             .ok_or(SubscriptionError::PartitionWatermarkNotFound { partition_id })?
             .clone();
 
+        #[cfg(sierradb_verif)]
+        let verif_detail = format!("{partition_id}/{stream_id}");
+
         let mut iter = self
             .database
             .read_stream(
@@ -683,7 +761,11 @@ impl Subscription {
                 IterDirection::Forward,
             )
             .await?;
+        #[cfg(sierradb_verif)]
+        verif::pause("hist:batch", verif_detail.clone()).await;
         while let Some(commits) = iter.next_batch(DEFAULT_BATCH_SIZE).await? {
+            #[cfg(sierradb_verif)]
+            verif::note("hist:len", commits.len() as u64);
             for commit in commits {
                 let Some(first_partition_sequence) = commit.first_partition_sequence() else {
                     continue;
@@ -702,6 +784,8 @@ impl Subscription {
                     *from_version = version + 1;
                 }
             }
+            #[cfg(sierradb_verif)]
+            verif::pause("hist:batch", verif_detail.clone()).await;
         }
 
         Ok(())
